@@ -201,6 +201,34 @@ impl<const S: usize> WantlistState<S> {
     }
 }
 
+#[cfg(beetswap_verif)]
+impl<const S: usize> WantlistState<S> {
+    pub(crate) fn verif_dump(&self) -> (Vec<(CidGeneric<S>, &'static str)>, bool, u64) {
+        let states = self
+            .req_state
+            .iter()
+            .map(|(cid, state)| {
+                let name = match state {
+                    WantReqState::SentWantHave => "SentWantHave",
+                    WantReqState::GotHave => "GotHave",
+                    WantReqState::GotDontHave => "GotDontHave",
+                    WantReqState::SentWantBlock => "SentWantBlock",
+                    WantReqState::GotBlock => "GotBlock",
+                };
+                (*cid, name)
+            })
+            .collect();
+        (states, self.force_update, self.synced_revision)
+    }
+}
+
+#[cfg(beetswap_verif)]
+impl<const S: usize> Wantlist<S> {
+    pub(crate) fn verif_dump(&self) -> (Vec<CidGeneric<S>>, u64) {
+        (self.cids.iter().copied().collect(), self.revision)
+    }
+}
+
 #[cfg(test)]
 mod tests {
     use super::*;
